@@ -527,6 +527,65 @@ def rule_addressing(ck, facts):
             ck.ok(R, "total_size|cover")
 
 
+def rule_fast_path(ck, facts):
+    """consumers of a migration plan that also know both layouts may skip the plan and keep the old buffer verbatim
+    only when the layouts are equal"""
+    R = "C08.fast-path"
+    ck.rule(R, "where a runtime holds both the old and the new state layout and compares them, every path that installs a verbatim copy of the old state buffer takes the `layouts are equal` edge of that comparison (an empty patch list alone does not mean `nothing changed`: it also describes a swap in which no subtree survives)")
+    sites = []
+    for crate in (roles.LANG, "mimium_cli", "mimium_audiodriver"):
+        try:
+            fl = facts.crate(crate).fns
+        except KeyError:
+            continue
+        for f in fl:
+            if f.kind == "promoted" or "::test" in f.path:
+                continue
+            eqs = [t for _, t in f.calls() if (callee(t) or "").split("::")[-1] in ("eq", "ne") and "StateTreeSkeleton" in ((t[4].get("full") or "") if isinstance(t[4], dict) else "")]
+            if eqs:
+                sites.append((f, eqs))
+    ck.floor(R, "layout_comparison_sites", len(sites), 1)
+    for f, eqs in sites:
+        sx = SymEx(f, max_paths=400, max_steps=30000, facts=facts)
+        try:
+            paths = sx.run(0)
+        except PathLimit:
+            paths = sx.paths
+        n_copy = 0
+        bad = None
+        for p in paths:
+            if p.end != "return":
+                continue
+            eq_pos = None
+            eq_term = None
+            for i, e in enumerate(p.events):
+                if e[0] == "call" and any(e[3] is t for t in eqs):
+                    eq_pos, eq_term = i, ("call", e[1], e[2])
+            if eq_pos is None:
+                continue
+            clones = [e for e in p.events[eq_pos + 1:] if e[0] == "call" and e[1].split("::")[-1] in ("clone", "to_vec", "to_owned") and "u64" in (e[3][4].get("full") or "")]
+            if not clones:
+                continue
+            n_copy += 1
+            truth = None
+            for ce, v, pos in p.conds:
+                if ce == eq_term:
+                    truth = (v != 0) if pos else None
+                    if not pos and tuple(v) == (0,):
+                        truth = True
+            is_ne = eq_term[1].split("::")[-1] == "ne"
+            equal = (truth is True and not is_ne) or (truth is False and is_ne)
+            if not equal:
+                bad = clones[0][3]
+        key = "verbatim-copy|%s" % f.short.split("::")[-1]
+        if n_copy == 0:
+            ck.ok(R, key, {"fn": f.short, "verbatim_copy_paths_after_comparison": 0})
+        elif bad is None:
+            ck.ok(R, key, {"fn": f.short, "verbatim_copy_paths_after_comparison": n_copy, "all_on": "layouts equal"})
+        else:
+            ck.bad(R, key, "%s compares the old and the new layout but also keeps the old state buffer verbatim on a path where they differ: a swap in which no subtree survives (empty patch list) installs the stale words under the new layout instead of starting from zero with the new size" % f.short, f.where(bad))
+
+
 def run(ck, facts, tier):
     ck.floor("C08.anchor", "state_tree_bodies", len(facts.crate(ST).fns), 40)
     rule_patch_sites(ck, facts)
@@ -534,5 +593,6 @@ def run(ck, facts, tier):
     rule_lcs(ck, facts)
     rule_apply(ck, facts)
     rule_addressing(ck, facts)
+    rule_fast_path(ck, facts)
     ck.not_decided("optimality of the greedy backtrack ('every surviving subtree is carried over') beyond the recurrence/backtrack shape rules")
     ck.not_decided("'never writes a destination word twice' for arbitrary trees (follows from monotone matching + prefix-sum addressing, which are checked as shapes, not proved)")
